@@ -305,6 +305,9 @@ def Env.set : Env → Name → List Char → Env
 inductive EvalErr where
   | invalidVariableValue | overflow | divisionByZero | leftShiftingNegative | reverseShifting
   | assignmentToValue
+  /-- `GetVariableError(E1)` / `AssignVariableError(E2)`: errors of the environment, passed through
+      (never produced by the `HashMap` environment; see `Shell.lean` for the shell's environment) -/
+  | getVariableError | assignVariableError
   deriving DecidableEq, Repr
 
 /-- `Result<α, eval::Error>` plus the two outcomes a Rust run could have instead of returning:
